@@ -116,6 +116,13 @@ def trace_call(fn: dict, kw: dict) -> str:
     return fn["name"] + "(" + ";".join(f"{p['name']}={canon_text(kw[p['name']])}" for p in fn["params"]) + ")"
 
 
+def returns_none(fn: dict, base: str) -> bool:
+    """Some tracers legitimately return None for some calls (side-effect style functions): decided by the call text."""
+    import zlib
+
+    return bool(fn.get("nones")) and not fn["int_axes"] and len(fn["outs"]) == 1 and zlib.crc32(base.encode()) % 3 == 0
+
+
 def make_block(base: str, oname: str, int_shape: tuple, ret: str):
     if not int_shape:
         return f"{oname}:{base}"
@@ -143,7 +150,9 @@ def make_body(prog: dict, fn: dict, log=None, hook=None):
             log.append(["start", fn["name"], base, os.getpid()])
         if hook is not None:
             hook(fn["name"], base, kw)
-        if len(outs) == 1:
+        if returns_none(fn, base):
+            r = None
+        elif len(outs) == 1:
             r = make_block(base, outs[0], int_shape, ret)
         elif picker == "dict":
             r = {o: make_block(base, o, int_shape, ret) for o in outs}
@@ -281,7 +290,7 @@ def denotation(prog: dict, inputs: dict | None = None, only: set | None = None, 
             if calls_out is not None:
                 calls_out.append((fn["name"], base, {}))
             for o in fn["outs"]:
-                env[o] = make_block(base, o, int_shape, "ndarray")
+                env[o] = None if returns_none(fn, base) else make_block(base, o, int_shape, "ndarray")
             continue
         full_shape = tuple(sizes[a] for a in fn["out_axes"])
         res = {o: np.empty(full_shape, dtype=object) for o in fn["outs"]}
@@ -291,7 +300,7 @@ def denotation(prog: dict, inputs: dict | None = None, only: set | None = None, 
             if calls_out is not None:
                 calls_out.append((fn["name"], base, dict(ids)))
             for o in fn["outs"]:
-                blk = make_block(base, o, int_shape, "ndarray")
+                blk = None if returns_none(fn, base) else make_block(base, o, int_shape, "ndarray")
                 if fn["int_axes"]:
                     for iidx in itertools.product(*map(range, int_shape)):
                         it = iter(iidx)
@@ -366,6 +375,8 @@ def labels(prog: dict) -> list[str]:
     labs.add("storage:" + (st_ if isinstance(st_, str) else "mixed"))
     if len({prog["sizes"][a] for a in prog["sizes"]}) >= 2:
         labs.add("unequal_sizes")
+    if any(fn.get("nones") for fn in prog["funcs"]):
+        labs.add("returns_none")
     labs.add(f"nf{len(prog['funcs'])}")
     return sorted(labs)
 
@@ -399,6 +410,7 @@ def map_programs(
     min_funcs: int = 1,
     max_size: int = 3,
     root_pool: int = 4,  # number of index names the root inputs draw their axes from (small -> more zips)
+    allow_none: bool = True,
 ):
     sizes: dict[str, int] = {}
 
@@ -505,12 +517,18 @@ def map_programs(
             "int_axes": int_axes,
             "ret": draw(st.sampled_from(["list", "ndarray"])),
             "shape_via": draw(st.sampled_from(["map", "map", "pipefunc"])),
+            "nones": bool(allow_none and n_out == 1 and draw(st.integers(0, 3)) == 0),
         }
         funcs.append(fn)
         for o in outs:
             arrays[o] = out_axes
             if not use_mapspec:
                 autogen_candidates.add(o)
+    # None results only for outputs nobody consumes: call texts of downstream functions stay unique
+    consumed = {p["name"] for fn in funcs for p in fn["params"]}
+    for fn in funcs:
+        if fn["nones"] and (set(fn["outs"]) & consumed):
+            fn["nones"] = False
     names = [o for fn in funcs for o in fn["outs"]]
     kind = draw(st.sampled_from(["uniform"] * 4 + ["mixed"]))
     weights = [s for s in storages for _ in range(1 if "shared" in s else 4)]
